@@ -268,6 +268,7 @@ class Exec:
         self.classes: Dict[str, "ClassModel"] = {}
         self.raised: List[Any] = []  # (pc, exception, where) of raising paths inside class-model calls
         self.facts: List[Any] = []  # quantified facts introduced by assumed library contracts (hypotheses of every VC)
+        self._pending_raises: List[Outcome] = []  # raising alternatives of the expression being evaluated by the current statement
 
     # ------------------------------------------------------------------ helpers
     def feasible(self, pc: List[Any]) -> bool:
@@ -334,7 +335,38 @@ class Exec:
         m = getattr(self, "st_" + type(st).__name__, None)
         if m is None:
             raise Unsupported(f"statement {type(st).__name__} at line {getattr(st, 'lineno', '?')}")
-        return m(st, pc, env)
+        saved, self._pending_raises = self._pending_raises, []
+        try:
+            outs = m(st, pc, env)
+            outs = list(outs) + self._pending_raises
+        finally:
+            self._pending_raises = saved
+        return outs
+
+    def st_Try(self, st, pc, env):
+        """try/except[/else]: outcomes of the body that raise a matching exception continue in the handler.  Exceptions are the
+        explicit `raise` statements and the raising alternatives of intrinsics (Raises); anything else that the real code
+        could raise inside the body is outside the model (documented per contract)."""
+        if st.finalbody:
+            raise Unsupported(f"try/finally at line {st.lineno}")
+        outs: List[Outcome] = []
+        for o in self.exec_block(st.body, pc, env):
+            if o.kind == "fall" and st.orelse:
+                outs.extend(self.exec_block(st.orelse, o.pc, o.env))
+            elif o.kind != "raise":
+                outs.append(o)
+            else:
+                for h in st.handlers:
+                    if _handler_matches(h.type, o.exc):
+                        e2 = o.env
+                        if h.name:
+                            e2 = dict(e2)
+                            e2[h.name] = Opaque(f"exception {o.exc}")
+                        outs.extend(self.exec_block(h.body, o.pc, e2))
+                        break
+                else:
+                    outs.append(o)
+        return outs
 
     def st_Pass(self, st, pc, env):
         return [Outcome("fall", pc, env)]
@@ -523,7 +555,19 @@ class Exec:
         try:
             v = self.eval(node, pc, env)
             if isinstance(v, PathValues):
-                return [(pc + [c], env, x) for c, x in v.alts if self.feasible(pc + [c])]
+                res = []
+                for c, x in v.alts:
+                    if not self.feasible(pc + [c]):
+                        continue
+                    if isinstance(x, Raises):
+                        # the raising alternative owns a copy of the state: the other alternatives go on mutating theirs
+                        self._pending_raises.append(Outcome("raise", pc + [c], copy.deepcopy(env), None, x.exc))
+                    else:
+                        res.append((pc + [c], env, x))
+                return res
+            if isinstance(v, Raises):
+                self._pending_raises.append(Outcome("raise", pc, env, None, v.exc))
+                return []
             return [(pc, env, v)]
         except _Fork as f:
             res = []
@@ -929,7 +973,26 @@ class Exec:
         return self._comp(n, pc, env, lambda e2: self.eval(n.elt, pc, e2))
 
     def ex_SetComp(self, n, pc, env):
+        if len(n.generators) == 1 and not n.generators[0].ifs:
+            it = self.eval(n.generators[0].iter, pc, env)
+            if isinstance(it, SymList):
+                return self._image_set(n, it, pc, env)
         return set(self._comp(n, pc, env, lambda e2: self.eval(n.elt, pc, e2)))
+
+    def _image_set(self, n, lst: "SymList", pc, env):
+        """{f(x) for x in L} for a symbolic list L: the set S with  (forall i in range: f(L[i]) in S)  and
+        (forall k in S: 0 <= w(k) < len(L) and f(L[w(k)]) == k)  for a witness function w (facts of every VC)."""
+        g = n.generators[0]
+        i = fresh("ci", z3.IntSort())
+        e2 = self.assign(g.target, lst.at(i), pc, env)
+        img = to_z3(self.eval(n.elt, pc, e2))
+        res = SymSet(img.sort(), "imgset")
+        w = z3.Function(f"imgw_{res.dom}", img.sort(), z3.IntSort())
+        k = fresh("ck", img.sort())
+        self.facts.append(z3.ForAll([i], z3.Implies(z3.And(i >= 0, i < lst.length), res.has(img)), patterns=[img] if not z3.is_const(img) else []))
+        self.facts.append(z3.ForAll([k], z3.Implies(res.has(k), z3.And(w(k) >= 0, w(k) < lst.length, z3.substitute(img, (i, w(k))) == k)), patterns=[res.has(k)]))
+        self.facts.append(z3.And(res.card >= 0, res.card <= lst.length))
+        return res
 
     def ex_GeneratorExp(self, n, pc, env):
         return self._comp(n, pc, env, lambda e2: self.eval(n.elt, pc, e2))
@@ -1100,6 +1163,66 @@ class _Fork(Exception):
         self.branches = branches
 
 
+class Raises:
+    """Value of an expression alternative that raises `exc` instead of producing a value (only as a whole statement value)."""
+
+    def __init__(self, exc: str):
+        self.exc = exc
+
+    def __deepcopy__(self, memo):
+        return self
+
+
+class Opaque:
+    def __init__(self, what: str):
+        self.what = what
+
+    def __deepcopy__(self, memo):
+        return self
+
+
+_EXC_PARENTS = {"StopIteration": "Exception", "ValueError": "Exception", "TypeError": "Exception", "KeyError": "LookupError", "IndexError": "LookupError", "LookupError": "Exception",
+                "AssertionError": "Exception", "ZeroDivisionError": "ArithmeticError", "ArithmeticError": "Exception", "NetworkXUnfeasible": "NetworkXException",
+                "NetworkXException": "Exception", "Exception": "BaseException"}
+
+
+def _exc_name(t) -> str:
+    if isinstance(t, ast.Call):
+        t = t.func
+    if isinstance(t, ast.Name):
+        return t.id
+    if isinstance(t, ast.Attribute):
+        return t.attr
+    raise Unsupported("exception type expression")
+
+
+def _handler_matches(t, exc: str) -> bool:
+    if t is None:
+        return True
+    names = [_exc_name(e) for e in t.elts] if isinstance(t, ast.Tuple) else [_exc_name(t)]
+    cur = exc
+    seen = 0
+    while cur and seen < 10:
+        if cur in names:
+            return True
+        if cur not in _EXC_PARENTS and cur != "BaseException":
+            raise Unsupported(f"exception class {cur} is not in the hierarchy table")
+        cur = _EXC_PARENTS.get(cur)
+        seen += 1
+    return False
+
+
+class SymIter:
+    """iter(<SymList>): a position into the list; next() advances it or raises StopIteration."""
+
+    def __init__(self, lst: "SymList", pos=0):
+        self.lst = lst
+        self.pos = pos
+
+    def __deepcopy__(self, memo):
+        return SymIter(copy.deepcopy(self.lst, memo), self.pos)
+
+
 # ---------------------------------------------------------------------------------------------- misc value kinds
 
 
@@ -1237,21 +1360,26 @@ class RecordCtor:
 
 
 class SymSet:
-    def __init__(self, ksort, name="set", dom=None):
+    """dom: characteristic array; card: ghost cardinality (exact for sets built from empty() by add(); a fresh set has an
+    unconstrained non-negative cardinality unless a contract says more)."""
+
+    def __init__(self, ksort, name="set", dom=None, card=None):
         self.ksort = ksort
         self.dom = dom if dom is not None else fresh(name, z3.ArraySort(ksort, z3.BoolSort()))
+        self.card = card if card is not None else fresh(name + "_card", z3.IntSort())
 
     @staticmethod
     def empty(ksort):
-        return SymSet(ksort, dom=z3.K(ksort, z3.BoolVal(False)))
+        return SymSet(ksort, dom=z3.K(ksort, z3.BoolVal(False)), card=z3.IntVal(0))
 
     def __deepcopy__(self, memo):
-        return SymSet(self.ksort, dom=self.dom)
+        return SymSet(self.ksort, dom=self.dom, card=self.card)
 
     def has(self, k):
         return z3.Select(self.dom, to_z3(k))
 
     def add(self, k):
+        self.card = z3.If(self.has(k), self.card, self.card + 1)
         self.dom = z3.Store(self.dom, to_z3(k), z3.BoolVal(True))
 
 
@@ -1266,7 +1394,25 @@ def _b_len(ex, pc, args, kw):
         return v.length
     if isinstance(v, z3.SeqRef):
         return z3.Length(v)
+    if isinstance(v, SymSet):
+        return v.card
     raise Unsupported(f"len of {type(v).__name__}")
+
+
+def _b_iter(ex, pc, args, kw):
+    if len(args) == 1 and isinstance(args[0], SymList):
+        return SymIter(args[0], z3.IntVal(0))
+    raise Unsupported("iter() of this value")
+
+
+def _b_next(ex, pc, args, kw):
+    if len(args) != 1 or not isinstance(args[0], SymIter):
+        raise Unsupported("next() with a default / of this value")
+    it = args[0]
+    has = z3.And(to_z3(it.pos) >= 0, to_z3(it.pos) < it.lst.length)
+    val = it.lst.at(it.pos)
+    it.pos = z3.If(has, to_z3(it.pos) + 1, to_z3(it.pos))  # valid on both alternatives
+    return PathValues([(has, val), (z3.Not(has), Raises("StopIteration"))])
 
 
 def _b_minmax(is_max):
@@ -1396,6 +1542,8 @@ _BUILTINS: Dict[str, Callable] = {
     "set": _b_set,
     "str": _b_str,
     "hasattr": lambda ex, pc, args, kw: _b_hasattr(args),
+    "iter": _b_iter,
+    "next": _b_next,
     "object": lambda ex, pc, args, kw: (_ for _ in ()).throw(Unsupported("object()")),
 }
 
@@ -1465,6 +1613,58 @@ class LoopSpec:
         raise Unsupported("while loops: use WhileSpec")
 
 
+class WhileSpec:
+    """Cut-point treatment of `while c:` with a side-car invariant over the environment; `break` leaves the loop with the
+    state of that path, a false test leaves it with invariant and not c.  variant(env) -> z3 Int must be >= 0 under the
+    invariant at the loop head and strictly decrease on every path that comes back to it (termination)."""
+
+    def __init__(self, state_vars: List[str], invariant: Callable, variant: Optional[Callable] = None, fresh_like: Optional[Callable] = None, name: str = "while"):
+        self.state_vars = state_vars
+        self.invariant = invariant
+        self.variant = variant
+        self.fresh_like = fresh_like or default_fresh_like
+        self.name = name
+
+    def apply_while(self, ex: "Exec", st: ast.While, pc, env, ordinal) -> List[Outcome]:
+        if st.orelse:
+            raise Unsupported("while/else")
+        tag = f"{self.name}#{ordinal}"
+        ex.oblige(f"{tag}.inv_base", pc, self.invariant(env), "loop invariant holds on entry")
+        env_h = copy.deepcopy(env)
+        for v in self.state_vars:
+            if v in env_h:
+                env_h[v] = self.fresh_like(v, env_h[v])
+        self.rebind(env_h)
+        inv = self.invariant(env_h)
+        pc_h = pc + [inv]
+        outs: List[Outcome] = []
+        v0 = self.variant(env_h) if self.variant else None
+        if v0 is not None:
+            ex.oblige(f"{tag}.variant_nonneg", pc_h, to_z3(v0) >= 0, "the termination measure is non-negative at the loop head")
+        for pc2, env2, t in ex.eval_fork(st.test, pc_h, env_h):
+            c = truth(t)
+            if c is not True:
+                pf = pc2 + [z_not(c)]
+                if ex.feasible(pf):
+                    outs.append(Outcome("fall", pf, copy.deepcopy(env2)))
+            if c is False:
+                continue
+            pt = pc2 if c is True else pc2 + [c]
+            for r in ex.exec_block(st.body, pt, env2):
+                if r.kind in ("fall", "continue"):
+                    ex.oblige(f"{tag}.inv_step", r.pc, self.invariant(r.env), "loop invariant preserved by the body")
+                    if v0 is not None:
+                        ex.oblige(f"{tag}.variant_decreases", r.pc, to_z3(self.variant(r.env)) < to_z3(v0), "the termination measure decreases")
+                elif r.kind == "break":
+                    outs.append(Outcome("fall", r.pc, r.env))
+                else:
+                    outs.append(r)
+        return outs
+
+    def rebind(self, env) -> None:
+        """hook: re-establish aliasing between havocked values (e.g. an attribute of self and a local)"""
+
+
 def default_fresh_like(name, old):
     if isinstance(old, bool):
         return fresh(name, z3.BoolSort())
@@ -1480,6 +1680,8 @@ def default_fresh_like(name, old):
         return SymMap(old.ksort, old.vsort, name)
     if isinstance(old, SymSet):
         return SymSet(old.ksort, name)
+    if isinstance(old, SymIter):
+        return SymIter(old.lst, fresh(name + "_pos", z3.IntSort()))
     if isinstance(old, Record):
         return Record(old.cls, {k: default_fresh_like(f"{name}_{k}", v) for k, v in old.fields.items()}, old.frozen, list(old.order))
     if isinstance(old, tuple):
